@@ -82,7 +82,9 @@ Definition cf_model (i : cf_in) : cf_out :=
   (vs, cf_outcome freq feeinfo F dest (map (fun ao => (fst ao, cf_clean (snd ao))) (select vs aos))).
 Definition cf_oeqb (a b : cf_out) : bool := list_eqb Bool.eqb (fst a) (fst b) && out_eqb (snd a) (snd b).
 
-(* the statement, restated directly over the accepted observations *)
+(* the statement, restated directly over the accepted observations.
+   The reported price is to_packed da ex (C14_gas_price), not da * 2^112 + ex: the two agree only for 0 <= ex < 2^112
+   (C14_units_packing), beyond that the sum rejected the model's own output (Proofs/JudgeSoundC14P.v: cf_ok_before_false_alarm). *)
 Definition cf_spec (freq : Z) (feeinfo : list (N * (Z * Z))) (F : Z) (dest : N) (acc : list (N * cf_obs))
   : res (list (N * Z)) :=
   match f_of cf_fchain F acc dest with
@@ -113,15 +115,18 @@ Definition cf_spec (freq : Z) (feeinfo : list (N * (Z * Z))) (F : Z) (dest : N) 
                     | Some (eppb, dppb) => dev_spec ex uex eppb || dev_spec da uda dppb
                     end
                   else true in
-                if sel then [(k, (da * 2 ^ 112 + ex)%Z)] else []
+                if sel then [(k, to_packed da ex)] else []
               else []
           end) (sortN (keys_of cf_feecomp acc)))
   end.
 
+(* C14_validated_no_null_chainfee in full: fee components and native prices of an accepted observation are non-null AND
+   in range (exec fee > 0, da fee >= 0, native price > 0); the range half was not checked before
+   (Proofs/JudgeSoundC14P.v: cf_ok_before_weak) *)
 Definition cf_accept_ok (ao : N * cf_raw) : bool :=
   let ob := snd ao in
-  forallb (fun e => is_some (fst (snd e)) && is_some (snd (snd e))) (cfr_feecomp ob) &&
-  forallb (fun e => is_some (snd e)) (cfr_native ob) &&
+  forallb (fun e => match snd e with (Some ex, Some da) => Z.ltb 0 ex && Z.leb 0 da | _ => false end) (cfr_feecomp ob) &&
+  forallb (fun e => match snd e with Some p => Z.ltb 0 p | None => false end) (cfr_native ob) &&
   forallb (fun e => is_some (fst (fst (snd e))) && is_some (snd (fst (snd e)))) (cfr_updates ob) &&
   forallb (fun e => Z.ltb 0 (snd e)) (cfr_fchain ob).
 
